@@ -620,6 +620,98 @@ pub fn fault_cases(seed: u64, per_target: usize) -> Vec<Case> {
     out
 }
 
+/// Files cut or padded to every length around the structural boundaries of their format: the
+/// places where a loader classifies a file by its size or computes "what is left" by subtraction.
+pub fn boundary_cases(seed: u64) -> Vec<Case> {
+    let mut out: Vec<Case> = Vec::new();
+    let near = |set: &mut Vec<usize>, centre: usize, radius: usize| {
+        for l in centre.saturating_sub(radius)..=centre + radius {
+            set.push(l);
+        }
+    };
+    for (ti, target) in [Target::Sna, Target::Szx, Target::Scr, Target::Tap, Target::Rom, Target::Gzip, Target::Vtx].iter().enumerate() {
+        for file_machine in [Machine::K48, Machine::K128] {
+            let per_file_machine = matches!(target, Target::Sna | Target::Szx | Target::Rom);
+            if !per_file_machine && file_machine == Machine::K128 {
+                continue;
+            }
+            let data = valid_file(*target, file_machine, seed ^ ((ti as u64) << 40) ^ 0x5151);
+            let mut lens: Vec<usize> = Vec::new();
+            near(&mut lens, 0, 4);
+            near(&mut lens, data.len(), 5);
+            match target {
+                Target::Sna => {
+                    near(&mut lens, 27, 3);
+                    for k in 1..=8 {
+                        near(&mut lens, 27 + k * 16384, 2);
+                        near(&mut lens, 27 + 3 * 16384 + 4 + k * 16384, 2);
+                    }
+                    near(&mut lens, 49179, 5);
+                    near(&mut lens, 49183, 5);
+                    near(&mut lens, 131103, 5);
+                    near(&mut lens, 147487, 5);
+                }
+                Target::Szx => {
+                    near(&mut lens, 8, 3);
+                    // every chunk boundary of the file: header (id + size) and body ends
+                    let mut p = 8usize;
+                    while p + 8 <= data.len() {
+                        let size = u32::from_le_bytes([data[p + 4], data[p + 5], data[p + 6], data[p + 7]]) as usize;
+                        near(&mut lens, p, 2);
+                        near(&mut lens, p + 4, 1);
+                        near(&mut lens, p + 8, 3);
+                        p = p.saturating_add(8).saturating_add(size);
+                        if p <= data.len() {
+                            near(&mut lens, p, 3);
+                        }
+                    }
+                }
+                Target::Scr => {
+                    near(&mut lens, 6144, 2);
+                    near(&mut lens, 6912, 3);
+                }
+                Target::Tap => {
+                    let mut p = 0usize;
+                    while p + 2 <= data.len() {
+                        let size = u16::from_le_bytes([data[p], data[p + 1]]) as usize;
+                        near(&mut lens, p, 2);
+                        near(&mut lens, p + 2, 2);
+                        p += 2 + size;
+                        near(&mut lens, p.min(data.len() + 4), 2);
+                    }
+                }
+                Target::Rom => {
+                    near(&mut lens, 16384, 3);
+                    near(&mut lens, 32768, 3);
+                }
+                Target::Gzip => {
+                    near(&mut lens, 10, 8);
+                    near(&mut lens, data.len().saturating_sub(8), 3);
+                }
+                Target::Vtx => {
+                    near(&mut lens, 16, 8);
+                    near(&mut lens, 32, 12);
+                }
+            }
+            lens.sort();
+            lens.dedup();
+            for l in lens {
+                for (pi, pad) in [0x00u8, 0xA5].iter().enumerate() {
+                    if l <= data.len() && pi == 1 {
+                        continue; // padding byte only matters when the file is extended
+                    }
+                    let mut d = data.clone();
+                    d.resize(l, *pad);
+                    for machine in [Machine::K48, Machine::K128] {
+                        out.push(Case { target: *target, machine, cursor: l % 2 == 1, data: d.clone(), fault: None });
+                    }
+                }
+            }
+        }
+    }
+    out
+}
+
 // ---------------------------------------------------------------------------------------
 
 pub fn excl_from_known() -> Excl {
@@ -698,6 +790,8 @@ pub fn run(run: &mut Run) {
     run.enumerate("corpus", corpus, true, |c: &Case, r: &mut Rec| check_with(c, r, e1));
     let faults = fault_cases(run.seed, t.pick(4, 24));
     run.enumerate("fault-enumeration", faults, true, |c: &Case, r: &mut Rec| check_with(c, r, e1));
+    let bounds = boundary_cases(run.seed);
+    run.enumerate("length-boundaries", bounds, true, |c: &Case, r: &mut Rec| check_with(c, r, e1));
     run.explore("mutated-valid-files", t.pick(12_000, 600_000), mutated_strategy, |c, r| check_with(c, r, e1));
     run.explore("szx-chunk-structure", t.pick(8_000, 400_000), szx_chunks_strategy, |c, r| check_with(c, r, e1));
     run.explore("vtx-structure", t.pick(30_000, 2_000_000), vtx_struct_strategy, |c, r| check_with(c, r, e1));
@@ -726,7 +820,7 @@ pub fn replay(run: &mut Run, phase: &str, case: &serde_json::Value) -> Result<()
 }
 
 pub const LEVEL: &str = "fault_enumeration";
-pub const RULE: &str = "targets: load_snapshot(SNA|SZX), load_screen(SCR), load_tape(TAP) followed by a ROM fast-load request, rewind and 32 frames of real-time playing, load_rom, GzipAsset::new, Vtx::load followed by playing; both machines; 3 frames of emulation after every outcome. Inputs: (1) committed corpus (repository assets and earlier failures); (2) fault enumeration: for valid files of every format a fault (error, 1-byte / 7-byte short read, premature end-of-data; one-shot or sticky) at EVERY read/seek call index the successful load performs; (3) valid files from the harness' writers with 0..4 field/structure mutations (byte set, 32-bit set incl. 0/1/0xFFFF/0xFFFFFFFF/16383/16385, truncation, append, remove, splice; half of the positions in the first 512 bytes); (4) explicit SZX chunk lists with adversarial ids (non-UTF-8), sizes (0, 1, 2^32-1, ...) and body lengths (0..40, short RAMP pages); (5) VTX headers with adversarial sizes, player frequency 0, missing string terminators; (6) uniform bytes up to 160 KiB with and without magic. Monitor: catch_unwind with overflow checks and debug assertions enabled in all crates (profile `checked`), a counting allocator flagging any single request above max(16 MiB, 64 x input), deterministic loop detection (asset asked to read again after 100000 zero-length results). non-trivial = input passes the format's first size/magic validation as judged by the harness; distinct = hash of (bytes, target, machine, fault)";
+pub const RULE: &str = "targets: load_snapshot(SNA|SZX), load_screen(SCR), load_tape(TAP) followed by a ROM fast-load request, rewind and 32 frames of real-time playing, load_rom, GzipAsset::new, Vtx::load followed by playing; both machines; 3 frames of emulation after every outcome. Inputs: (1) committed corpus (repository assets and earlier failures); (2) fault enumeration: for valid files of every format a fault (error, 1-byte / 7-byte short read, premature end-of-data; one-shot or sticky) at EVERY read/seek call index the successful load performs; (2b) length boundaries: valid files of every format cut or padded (0x00 / 0xA5) to every length within a few bytes of each structural boundary (SNA: header, every bank end, 49179, 49183, 131103, 147487; SZX/TAP: every chunk/block header and body end; SCR 6144/6912; ROM 16384/32768; gzip/VTX headers and trailers), offered to both machines; (3) valid files from the harness' writers with 0..4 field/structure mutations (byte set, 32-bit set incl. 0/1/0xFFFF/0xFFFFFFFF/16383/16385, truncation, append, remove, splice; half of the positions in the first 512 bytes); (4) explicit SZX chunk lists with adversarial ids (non-UTF-8), sizes (0, 1, 2^32-1, ...) and body lengths (0..40, short RAMP pages); (5) VTX headers with adversarial sizes, player frequency 0, missing string terminators; (6) uniform bytes up to 160 KiB with and without magic. Monitor: catch_unwind with overflow checks and debug assertions enabled in all crates (profile `checked`), a counting allocator flagging any single request above max(16 MiB, 64 x input), deterministic loop detection (asset asked to read again after 100000 zero-length results). non-trivial = input passes the format's first size/magic validation as judged by the harness; distinct = hash of (bytes, target, machine, fault)";
 pub const ASSUMPTIONS: &[&str] = &[
     "Ok and Err are both clean outcomes; an Err from emulate_frames after a failed tape load is clean too",
     "non-termination is detected by a deterministic work counter in the asset, not by wall clock",
